@@ -137,7 +137,9 @@ func (c GenCfg) keyValue(r *Rng) *Val {
 		return VStr(c.Strs[r.Intn(len(c.Strs))])
 	case 1:
 		if r.Chance(1, 4) {
-			return VArr(VNum(float64(r.Intn(3))), VNum(float64(r.Intn(3))))
+			// array-valued key: sorted and duplicate-free, so that distinct texts are distinct as sets too
+			x := r.Intn(3)
+			return VArr(VNum(float64(x)), VNum(float64(x+1+r.Intn(2))))
 		}
 		return VNum(float64(r.Intn(4)))
 	default:
